@@ -36,7 +36,11 @@ def monitor(run):
         cnt_b = sum(PC.size_of(run, s)[0] for s in ub)
         byt_b = sum(PC.size_of(run, s)[1] for s in ub)
         idle_b = not before["busy"]
-        if immediate and not stopped and op not in (1, 4, 11) and not idle_b:
+        # outside the honest environment (a result that omits payloads, a hand-over that raises: F-C01-5) sends of an
+        # ended batch stay unresolved for ever, so "unresolved = queued or in flight" no longer holds: the checks that
+        # rest on it stop there (the theorems still hold; the correspondence still compares every step)
+        honest = run.dishonest_at is None or i < run.dishonest_at
+        if honest and immediate and not stopped and op not in (1, 4, 11) and not idle_b:
             # C19_dispatch_iff, third case: a batch dispatched by an event that completes the batch in flight
             queued = [s for s in ub if s not in on_wire]
             first = [o for o in outs if o[0] == 1 and o[1] == 1]
@@ -60,7 +64,7 @@ def monitor(run):
                                        "but its messages are in a produce request" % (sid, never[sid])))
             if o[0] == 7:
                 outcomes.setdefault(o[1], []).append(i)
-                if o[2] == 0 and o[3] == L.K_CANCEL and o[4] == 0:
+                if o[2] == 0 and o[3] == L.K_CANCEL and o[4] == 0 and honest:
                     if o[1] in on_wire:
                         bad.append((i, "cancelled-sent: send %d told request_sent=False but its messages were sent at step %d" % (o[1], on_wire[o[1]])))
                     never[o[1]] = i
@@ -73,7 +77,7 @@ def monitor(run):
             sid = run.send_ev[i]
             if outs != [[7, sid, 0, L.K_CANCEL, 0, 0, 0]] or sid in after["unresolved"]:
                 bad.append((i, "refused: send_messages on a stopped producer produced %r, expected an immediate CancelledError(request_sent=False)" % (outs,)))
-        if op == 1 and not stopped:
+        if op == 1 and not stopped and honest:
             cnt, byt = mev[3], mev[4]
             if not idle_b:
                 if outs:
@@ -83,7 +87,7 @@ def monitor(run):
                 if bool(outs) != expected:
                     bad.append((i, "dispatch-iff: send_messages with %d msgs/%d bytes waiting (n=%r b=%r): dispatch expected=%s observed=%s"
                                 % (cnt_b + cnt, byt_b + byt, PC.thresholds(cfg)[0], PC.thresholds(cfg)[1], expected, bool(outs))))
-        if op == 4 and not stopped:
+        if op == 4 and not stopped and honest:
             if not before["looper"] or not idle_b:
                 if outs:
                     bad.append((i, "dispatch-iff: tick (timer armed=%s, batch in flight=%s) produced %r" % (before["looper"], not idle_b, outs)))
@@ -99,7 +103,7 @@ def monitor(run):
                 ok = len(outs) == 1 and outs[0][:4] == [7, sid, 0, L.K_CANCEL] and outs[0][4] in (0, 1)
                 if not ok:
                     bad.append((i, "cancel: cancel() of waiting send %d produced %r" % (sid, outs)))
-                elif idle_b and not stopped and outs[0][4] != 0:
+                elif idle_b and not stopped and honest and outs[0][4] != 0:
                     bad.append((i, "cancel: cancel() with no batch in flight reported request_sent=True"))
                 if after["busy"] != before["busy"] or after["unresolved"] != [s for s in ub if s != sid]:
                     bad.append((i, "cancel: cancel() changed more than the caller's Deferred"))
@@ -142,7 +146,7 @@ def monitor(run):
                                        "cancelled client Deferred says" % (o, v)))
             stopped = True
         # C19_no_due_batch_waits
-        if not stopped and not after["busy"]:
+        if not stopped and not after["busy"] and honest:
             ua = after["unresolved"]
             c = sum(PC.size_of(run, s)[0] for s in ua)
             b = sum(PC.size_of(run, s)[1] for s in ua)
